@@ -86,7 +86,18 @@ def execute(job):
             o["rows"], o["intact"] = rows, intact
             return o
         c = t["c"]
-        tr, pos, mats = _traj(c, u, clock, built)
+        diag = op == "split" and t.get("kind") == "distance" and (n // 7) % 2 == 1
+        if diag:
+            # the same step pattern along the diagonal of the xy plane, given as INTEGER coordinates: step lengths s * sqrt(2)
+            from evo.core.trajectory import PoseTrajectory3D
+            xs = np.concatenate(([0], np.cumsum(np.array(c["steps"], dtype=np.int64))))
+            ipos = np.column_stack((xs, xs, np.zeros(len(xs), dtype=np.int64)))
+            _, _, mats = _traj(c, 1.0, clock, "pq")
+            quats = np.array([[math.cos(math.radians(h % 360) / 2), 0.0, 0.0, math.sin(math.radians(h % 360) / 2)] for h in c["heads"]])
+            tr = PoseTrajectory3D(positions_xyz=ipos, orientations_quat_wxyz=quats, timestamps=clock.g(c["stamps"]))
+            pos = ipos.astype(float)
+        else:
+            tr, pos, mats = _traj(c, u, clock, built)
         pre = (n // 5) % 4
         if pre == 1:
             _ = tr.positions_xyz
@@ -109,7 +120,7 @@ def execute(job):
             if t["kind"] == "time":
                 parts = tr.split_time_gaps(t["th"] * clock.dt)
             elif t["kind"] == "distance":
-                parts = tr.split_distance_gaps(t["th"] * u)
+                parts = tr.split_distance_gaps((t["th"] + 0.5) * math.sqrt(2.0) if diag else t["th"] * u)
             else:
                 parts = tr.split_speed_outliers(0.5 * t["th"] * u / clock.dt)
             o["parts"] = []
